@@ -386,7 +386,7 @@ def main():
     for L in range(LC, -1, -1):
         spread("exact", task_c, L, LC)
     # a character whose lower-casing changes the string length (U+0130), and calls repeated after the caller edited a result
-    SIGMA_I = " andA\u0130x{"
+    SIGMA_I = " andA\u0130\u00dfx{"       # U+0130: lower() gives two characters; U+00DF: casefold() gives two
     chk.bounds["length-changing case family"] = f"all strings of length 0..7 over {SIGMA_I!r} (conservation, idempotence, repeated call)"
     for L in range(7, -1, -1):
         chk.add_task(f"recall-L{L}", task_recall, L=L, sigma=SIGMA_I)
